@@ -23,7 +23,8 @@ PARTIAL = ["closure = semi-graphoid derivability: the model's closure is proved 
 RULE = ("closure/entails/is_equivalent: every set of <=2 disjoint assertions over 4 variables (exhaustive) and random sets of 3; "
         "is_iequivalent: all ordered pairs of DAGs on <=3 nodes and random same-skeleton pairs on 4; check_independence on generic, "
         "product-form and XOR-like joints; minimal_imap for all orders; non-trivial = closure adds something / graphs have edges; "
-        "distinct = case JSON")
+        "distinct = case JSON"
+        " Also: variable names contained in one another, per-graph insertion order and BayesianNetwork objects for is_iequivalent, get_immoralities.")
 ASSUMPTIONS = ["assertions have pairwise disjoint, non-empty X and Y; tables are exact small rationals so 'holds numerically' is unambiguous"]
 BUDGET_QUICK = 100
 LEVEL_TEXT = ("Kernel-checked: equality of assertions up to symmetry is an equivalence relation; the model's closure contains its input and is "
